@@ -489,9 +489,20 @@ fn judge_single(case: &Case, obs: &Obs, l: &mut Local) {
         Some(true) => {
             l.outcome("walk:definitive-demanded");
             if !definitive {
+                // scene: what the lookup returned and the last upstream reaction it saw before giving up
+                let last = main_log
+                    .iter()
+                    .filter(|e| e.end.is_some())
+                    .max_by_key(|e| (e.end, e.serial))
+                    .map(|e| format!("{}{}", if e.connect { "tcp-connect-" } else if e.tcp { "tcp-" } else { "" }, e.step.split(':').next().unwrap()))
+                    .unwrap_or_else(|| "nothing".into());
                 l.violation(
-                    &format!("healthy-answer-missed:got={}:met={}", res.class(), fault_scene(&obs.log, owner)),
-                    &format!("a healthy server was reachable within the budget but the lookup returned {}", res.class()),
+                    &format!("healthy-answer-missed:got={}:last-reaction={last}", res.class()),
+                    &format!(
+                        "a healthy server was reachable within the budget but the lookup returned {} (reactions met: {})",
+                        res.class(),
+                        fault_scene(&obs.log, owner)
+                    ),
                     wit,
                 );
             }
@@ -641,6 +652,15 @@ fn judge_callers(case: &Case, obs: &Obs, single: &Obs, l: &mut Local) {
                 // arrival in the very instant the lookup completes / its creator is cancelled:
                 // both orders are admissible, nothing is judged for this caller
                 l.outcome("obs:arrival-ties-with-completion");
+                if own_exchanges(j) == 0 {
+                    continue;
+                }
+                // it started a lookup of its own: later arrivals are judged against that one
+                cur = Some(match cancel_of(j) {
+                    Some(x) => Inst { owner: j, owner_cancelled: true, registered_until: x, orphan_until: 0 },
+                    None => Inst { owner: j, owner_cancelled: false, registered_until: c.end.unwrap_or(u64::MAX), orphan_until: 0 },
+                });
+                first_instance = false;
                 continue;
             }
             if a < inst.registered_until {
@@ -744,12 +764,17 @@ fn behaviour_srv(b: u64, i: usize, tcp_available: bool, trust: bool, srtt: u32) 
         2 => Script::constant(Step::Truncated(f)),
         3 => Script::constant(Step::Silent),
         4 => Script::constant(Step::IoErr(f)),
-        _ => Script { steps: vec![Step::Busy(0)], rest: Step::Answer(f) },
+        5 => Script { steps: vec![Step::Busy(0)], rest: Step::Answer(f) },
+        // latency classes (thorough tier): the 0.6 T variants
+        6 => Script::constant(Step::Answer(SLOW)),
+        7 => Script::constant(Step::NxDomain(SLOW)),
+        8 => Script::constant(Step::Truncated(SLOW)),
+        _ => Script::constant(Step::IoErr(SLOW)),
     };
     // over TCP a server behaves as over UDP, except that the truncating one answers in full
     let tcp = match b {
-        0 | 2 | 5 => Script::constant(Step::Answer(ft)),
-        1 => Script::constant(Step::NxDomain(ft)),
+        0 | 2 | 5 | 6 | 8 => Script::constant(Step::Answer(ft)),
+        1 | 7 => Script::constant(Step::NxDomain(ft)),
         3 => Script::constant(Step::Silent),
         _ => Script::constant(Step::IoErr(ft)),
     };
@@ -762,7 +787,18 @@ fn behaviour_srv(b: u64, i: usize, tcp_available: bool, trust: bool, srtt: u32) 
     }
 }
 
-const BEHAVIOURS: [&str; 6] = ["answer", "nxdomain", "truncated-then-tcp-answer", "timeout", "io-error", "busy-then-answer"];
+const BEHAVIOURS: [&str; 10] = [
+    "answer",
+    "nxdomain",
+    "truncated-then-tcp-answer",
+    "timeout",
+    "io-error",
+    "busy-then-answer",
+    "answer@0.6T",
+    "nxdomain@0.6T",
+    "truncated@0.6T-then-tcp-answer",
+    "io-error@0.6T",
+];
 
 /// Family (i): decode index -> list of cases (the trust flags of the NXDOMAIN servers are
 /// enumerated inside).
@@ -780,7 +816,7 @@ fn coarse_cases(n: usize, d: &[u64]) -> Vec<Case> {
     } else {
         ("querystats", 0, strat == n as u64 + 2)
     };
-    let nx: Vec<usize> = (0..n).filter(|i| beh[*i] == 1).collect();
+    let nx: Vec<usize> = (0..n).filter(|i| beh[*i] == 1 || beh[*i] == 7).collect();
     let mut out = vec![];
     for mask in 0..(1u32 << nx.len()) {
         let servers = (0..n)
@@ -802,7 +838,22 @@ fn run_single(case: &Case, l: &mut Local) -> Obs {
     l.eval();
     let (obs, _) = execute(case, None, &Alphabets::default());
     judge_single(case, &obs, l);
+    note_first_server(case, &obs, l);
     obs
+}
+
+/// Which server the strategy put first (observation only; shows that the strategies are live).
+fn note_first_server(case: &Case, obs: &Obs, l: &mut Local) {
+    if case.servers.len() < 2 || case.strategy == "user" {
+        return;
+    }
+    if let Some(e) = obs.log.iter().find(|e| !e.connect && e.owner == owner_id(0)) {
+        let lowest_srtt = (0..case.servers.len()).min_by_key(|i| case.servers[*i].srtt).unwrap();
+        match case.strategy.as_str() {
+            "roundrobin" => l.outcome(if e.srv == 0 { "obs:roundrobin-first=configured-first" } else { "obs:roundrobin-first=rotated" }),
+            _ => l.outcome(if e.srv == lowest_srtt { "obs:querystats-first=lowest-srtt" } else { "obs:querystats-first=other" }),
+        }
+    }
 }
 
 fn nontrivial_mark(case: &Case, l: &mut Local) {
@@ -1051,8 +1102,10 @@ fn main() {
 
     // ---------------- (i) coarse product
     let mut total_space = 0u64;
+    let nbeh: u64 = if thorough { 10 } else { 6 };
+    ctx.set("coarse_behaviours", json!(BEHAVIOURS[..nbeh as usize]));
     for n in 1..=4usize {
-        let mut rad: Vec<u64> = vec![6; n];
+        let mut rad: Vec<u64> = vec![nbeh; n];
         rad.push(n as u64 + 3); // strategies
         rad.push(3); // conc
         rad.push(2); // tcp
@@ -1096,6 +1149,25 @@ fn main() {
                 *ch = c2;
             }
             judge_single(cfg, &obs, l);
+            note_first_server(cfg, &obs, l);
+            if ch.deviations() <= 1 {
+                // determinism self-test: the same choices must give the same observations (the
+                // follow-up under QueryStatistics is left out: its server order depends on SRTT
+                // decay, which hickory computes from the real clock)
+                let (mut again, _) = execute(cfg, Some(Chooser::new(ch.choices())), &alph);
+                let mut first = obs.clone();
+                if cfg.strategy == "querystats" {
+                    for o in [&mut again, &mut first] {
+                        o.followup = None;
+                        o.log.retain(|e| e.owner != FOLLOWUP_OWNER && !e.connect);
+                        o.servers.clear();
+                    }
+                }
+                if again.digest() != first.digest() {
+                    ctx.machinery_failure(&format!("nondeterminism: schedule {:?} of {} gave two different observations", ch.choices(), cfg.to_json()));
+                }
+                l.outcome("selftest:replayed-identically");
+            }
             let mut realized = cfg.clone();
             realized.servers = obs.servers.clone();
             nontrivial_mark(&realized, l);
@@ -1163,7 +1235,15 @@ fn main() {
         "shared-with-creator",
         "waiter-survived-creator-cancel",
         "selftest:replayed-identically",
+        "obs:roundrobin-first=rotated",
+        "obs:roundrobin-first=configured-first",
+        "obs:querystats-first=lowest-srtt",
+        "deadline-late",
     ] {
+        // "deadline-late" is the known defect; once it is fixed the class legitimately vanishes
+        if class == "deadline-late" {
+            continue;
+        }
         if ctx.outcome_count(class) == 0 {
             ctx.machinery_failure(&format!("vacuous run: outcome class '{class}' was never exercised"));
         }
